@@ -44,6 +44,49 @@ def _init_path_rule(A, qual, guarded):
                               'endpoint) nothing is')
 
 
+
+def _same_term_check(A, gs, v, san):
+    """The term appended to the mapped root is the very term whose segments were tested for
+    '..': nothing decodes, normalises or otherwise rewrites it after the test (``%2e%2e``
+    passes the test and becomes ``..`` in an unquote applied afterwards)."""
+    tested = set()
+    for a in san:
+        try:
+            t = ast.parse(a, mode='eval').body           # '..' in X.split('/')
+            x = t.comparators[0].func.value
+            tested.add(ast.unparse(x))
+        except Exception:
+            continue
+    if not tested:
+        return
+    for e in v.ev:
+        if not (e.kind == 'write' and txt(e.target).endswith("['filename']") and
+                ".rsplit('/', 1)[1]" in txt(e.expr)):
+            continue
+        root = unawait(e.expr)
+        bad = []
+
+        def walk(n, anc):
+            if ast.unparse(n) in tested:
+                for a_, child in anc:
+                    if isinstance(a_, ast.Call) and child is not a_.func:
+                        bad.append('rewritten after the test: ' + ast.unparse(a_)[:90])
+                    elif isinstance(a_, ast.Call) and isinstance(a_.func, ast.Attribute) and \
+                            a_.func.attr not in ('lstrip', 'rstrip', 'strip', 'join', 'format'):
+                        bad.append('rewritten after the test: ' + ast.unparse(a_)[:90])
+                return
+            if isinstance(n, ast.Subscript) and ast.unparse(n).endswith(".rsplit('/', 1)[1]"):
+                bad.append('request-derived text outside the tested term: ' + ast.unparse(n)[:90])
+                return
+            for c in ast.iter_child_nodes(n):
+                walk(c, [(n, c)] + anc)
+        walk(root, [])
+        A.check(not bad, 'C20.containment', "static files: what is appended to the mapped root "
+                "is exactly the remainder that was tested for '..' segments", A.site(gs, e.node),
+                key='static-same-term', detail=bad[:3] + [txt(e.expr)[:200]],
+                behaviour='/static/%2e%2e/%2e%2e/secret passes the test and is decoded to '
+                          '../../secret afterwards: a file outside the mapped directory is served')
+
 def check(A):
     from . import srvrules as R_
     R_.middleware_passthrough_rule(A, 'C20')
@@ -268,6 +311,8 @@ def check(A):
                 'mapped root)', A.site(gs), key='static-traversal',
                 detail=v.describe(50),
                 behaviour="/static/css/../../secret is served from outside the mapped directory")
+        if san and not san2:
+            _same_term_check(A, gs, v, san)
     A.floor('C20', 'static directory-mapping paths', n_dir, 2)
     # the remainder is *appended* to the mapped root: a path-joining API drops everything
     # before an absolute component (os.path.join('/root', '/etc/passwd') == '/etc/passwd'),
